@@ -81,10 +81,40 @@ Definition assemble (m : mode) (r : bytes * pool * list (N * list N)) : outcome 
   let raw_pointers := map fst all_ptrs ++ concat (map (fun g => isort N.leb (map (trunc_w 32) (snd g))) groups) in
   let file_size := size a + lenN pool_bytes + N.of_nat (length raw_pointers) * 4
                    + N.of_nat (length raw_labels) * 4 + p_len tpool2 + 32 in
+  _ <- guard (file_size <=? 4294967295) EOther ;;
   dsz <- add_w 32 m (trunc_w 32 (size a)) (trunc_w 32 (lenN pool_bytes)) ;;
   Ok (enc e 4 (trunc_w 32 file_size) ++ enc e 4 dsz ++ enc e 4 (trunc_w 32 (N.of_nat (length raw_pointers)))
       ++ enc e 4 (trunc_w 32 (N.of_nat (length raw_labels) / 2)) ++ zeros 16
       ++ d2 ++ pool_bytes ++ u32s e raw_pointers ++ u32s e raw_labels ++ p_raw tpool2).
+
+(* the length of the image assemble builds (exact: BinSerializeConforms.assemble_length) *)
+Definition file_size_of (r : bytes * pool * list (N * list N)) : N :=
+  let '(d2, tpool2, groups) := r in
+  size a + lenN pool_bytes
+  + N.of_nat (length (map fst all_ptrs ++ concat (map (fun g => isort N.leb (map (trunc_w 32) (snd g))) groups))) * 4
+  + N.of_nat (length (snd lab_run)) * 4 + p_len tpool2 + 32.
+(* the size of the image of a: what the guard of serialize compares with u32::MAX (0 if the data phase failed, which it does
+   not on well-formed archives: ser_facts) *)
+Definition image_size : N := match ser_data with Ok r => file_size_of r | _ => 0 end.
+
+Lemma assemble_guard m r : assemble m r =
+  if file_size_of r <=? 4294967295 then
+    let '(d2, tpool2, groups) := r in
+    let e := a_endian a in
+    let raw_labels := snd lab_run in
+    let raw_pointers := map fst all_ptrs ++ concat (map (fun g => isort N.leb (map (trunc_w 32) (snd g))) groups) in
+    dsz <- add_w 32 m (trunc_w 32 (size a)) (trunc_w 32 (lenN pool_bytes)) ;;
+    Ok (enc e 4 (trunc_w 32 (file_size_of r)) ++ enc e 4 dsz ++ enc e 4 (trunc_w 32 (N.of_nat (length raw_pointers)))
+        ++ enc e 4 (trunc_w 32 (N.of_nat (length raw_labels) / 2)) ++ zeros 16
+        ++ d2 ++ pool_bytes ++ u32s e raw_pointers ++ u32s e raw_labels ++ p_raw tpool2)
+  else Err EOther.
+Proof.
+  destruct r as [[d2 tpool2] groups]. unfold assemble, file_size_of, guard.
+  destruct (_ <=? 4294967295); reflexivity.
+Qed.
+(* above u32::MAX the request is rejected, in both profiles, before any `as u32` is used *)
+Lemma assemble_rejects m r : 4294967296 <= file_size_of r -> assemble m r = Err EOther.
+Proof. intros H. rewrite assemble_guard. destruct (N.leb_spec (file_size_of r) 4294967295); [lia | reflexivity]. Qed.
 
 Lemma serialize_unfold m : serialize_k kf m a = r <- ser_data ;; assemble m r.
 Proof.
@@ -144,12 +174,15 @@ Proof.
   induction l as [|[k' v'] r IH]; cbn [app am_get]; [discriminate|]. destruct (k =? k'); auto.
 Qed.
 
+Definition small32 (x : N) : Prop := x < U32.
 (* ------------------------------------------------------------------ the phases under wf_archive / fits32 *)
 Section Ser.
 Variable kf : name_key.
 Variable a : archive.
 Hypothesis WF : wf_archive a.
-Hypothesis FIT : fits32 a.
+(* the data alone fits 32 bits (implied by the guard of serialize having passed, and by fits32); wrapped in [small32] so that
+   `lia` does not pull the hypothesis into lemmas that do not need it *)
+Hypothesis SZ : small32 (size a).
 Notation e := (a_endian a).
 
 Let P := map fst (a_ptrs a).
@@ -303,7 +336,7 @@ Proof. unfold C, cs_cells. rewrite lenL_concat, sumf_map. reflexivity. Qed.
 Lemma size_small : size a + 32 <= ser_bound a.
 Proof. unfold ser_bound. lia. Qed.
 Lemma cell_small c : In c (cells a) -> c < U32.
-Proof. intros H. pose proof (wf_cells_in a WF c H). pose proof size_small. unfold fits32 in FIT. lia. Qed.
+Proof. intros H. pose proof (wf_cells_in a WF c H). pose proof SZ as S. unfold small32 in S. lia. Qed.
 
 Definition rp_of (groups : list (N * list N)) : list N :=
   map fst (all_ptrs a) ++ concat (map (fun g => isort N.leb (map (trunc_w 32) (snd g))) groups).
@@ -417,8 +450,18 @@ Proof.
   unfold fsz, dsz, rp. rewrite (rp_len groups Hperm), ltab_len. destruct Hok2 as [Hl _]. pose proof pool_bytes_bound.
   unfold ser_bound. lia.
 Qed.
+(* what the guard of serialize compares with u32::MAX is the length of the image *)
+Lemma file_size_fsz : file_size_of kf a (d2, tpool2, groups) = fsz.
+Proof.
+  unfold file_size_of. fold (rp_of groups). fold rp. rewrite Erl.
+  assert (E1 : N.of_nat (length rp) = lenL rp) by reflexivity.
+  assert (E2 : N.of_nat (length (flat ltab)) = 2 * lenL ltab) by (rewrite length_flat; unfold lenL; lia).
+  rewrite E1, E2. destruct Hok2 as [Hl _]. rewrite Hl. unfold fsz, dsz. clear. lia.
+Qed.
+(* the guard of serialize has passed: the exact image size fits 32 bits (implied by fits32 through fsz_bound) *)
+Hypothesis FSZ : small32 fsz.
 Lemma fsz_small : fsz < U32.
-Proof. pose proof fsz_bound. unfold fits32 in FIT. lia. Qed.
+Proof. exact FSZ. Qed.
 
 Lemma lenN_image : lenN image_of = fsz.
 Proof.
@@ -437,6 +480,8 @@ Proof.
   replace (2 * lenL ltab / 2) with (lenL ltab) by lia.
   unfold fsz, dsz in Hs. rewrite !trunc_small by (unfold U32 in *; lia).
   rewrite add_w_ok by (unfold maxw; unfold U32 in Hs; lia). cbn [bind].
+  assert (G : fsz <=? 4294967295 = true) by (apply N.leb_le; unfold fsz, dsz, U32 in *; lia).
+  rewrite G. cbn [guard bind].
   unfold image_of. fold dsz. rewrite <- !app_assoc. reflexivity.
 Qed.
 
@@ -475,7 +520,7 @@ Proof. apply Forall_forall. intros [k l] Hin. apply label_name_wf, Hin. Qed.
 
 Lemma ltab_small : Forall (fun p => fst p < U32 /\ snd p < U32) ltab.
 Proof.
-  pose proof fsz_small as Hs. pose proof size_small as Hz. unfold fits32 in FIT.
+  pose proof fsz_small as Hs. pose proof dsz_le_fsz as Hz.
   assert (HF' : Forall2 (fun (x : N * N) (y : N * bytes) => fst x < U32 /\ snd x < U32) ltab (label_names (lab_sorted kf a))).
   { eapply Forall2_In_impl; [exact names_wf | | exact HF]. intros [addr off] [k l] (Hk & _ & _) [E Hh]. cbn [fst snd] in *. subst.
     apply holds_bound in Hh. unfold fsz in Hs. split; lia. }
@@ -579,16 +624,113 @@ Lemma published_eq a d2 tpool2 groups : ser_data kf a = Ok (d2, tpool2, groups) 
   published kf a = {| c_data := d2 ++ pool_bytes a; c_ptrs := a_ptrs a ++ cs_ptrs a; c_text := a_text a; c_labels := a_labels a |}.
 Proof. intros E. unfold published, data_region. rewrite E. reflexivity. Qed.
 
-(* C01_serialize_conforms *)
+(* ---- the 32-bit guard (fix 524d15f, finding F25): serialize succeeds exactly when the image fits 32-bit sizes ---- *)
+Lemma fits32_size a : fits32 a -> size a < U32.
+Proof. unfold fits32, ser_bound. lia. Qed.
+
+(* a successful serialize has passed the guard: data and image fit 32 bits *)
+Lemma serialize_ok_small m a f d2 tpool2 groups ltab :
+  serialize_k kf m a = Ok f -> ser_data kf a = Ok (d2, tpool2, groups) ->
+  lenN d2 = size a -> pool_ok tpool2 ->
+  p_len tpool2 <= sumf (fun kb => sumf (fun l => lenN l + 1) (snd kb)) (a_labels a) + sumf (fun cs => lenN (snd cs) + 1) (a_text a) ->
+  snd (lab_run kf a) = flat ltab ->
+  (forall c v, In (c, v) (all_ptrs a) -> u32_at (a_endian a) d2 c = Some (trunc_w 32 v)) ->
+  (forall c s, In (c, s) (a_text a) ->
+     exists off, u32_at (a_endian a) d2 c = Some (trunc_w 32 (text_start kf a + off)) /\ holds (p_raw tpool2) off s) ->
+  small32 (size a) /\
+  small32 (32 + (size a + lenN (pool_bytes a)) + 4 * lenL (rp_of a groups) + 8 * lenL ltab + lenN (p_raw tpool2)).
+Proof.
+  intros Ef Es L2 Hok2 Hlen Erl Hptr Hstr.
+  assert (Efs : file_size_of kf a (d2, tpool2, groups) = 32 + (size a + lenN (pool_bytes a)) + 4 * lenL (rp_of a groups) + 8 * lenL ltab + lenN (p_raw tpool2))
+    by (eapply file_size_fsz; eassumption).
+  rewrite serialize_unfold, Es in Ef. cbn [bind] in Ef. rewrite assemble_guard, Efs in Ef. unfold small32.
+  destruct (N.leb_spec (32 + (size a + lenN (pool_bytes a)) + 4 * lenL (rp_of a groups) + 8 * lenL ltab + lenN (p_raw tpool2)) 4294967295) as [H|H];
+    [|discriminate]. unfold U32. split; lia.
+Qed.
+
+(* everything about a successful serialize of a well-formed archive, WITHOUT an a-priori size bound: success is the bound *)
+Lemma serialize_ok_facts m a f : wf_archive a -> serialize_k kf m a = Ok f ->
+  exists d2 tpool2 groups ltab,
+    ser_data kf a = Ok (d2, tpool2, groups) /\ f = image_of a d2 tpool2 groups ltab /\
+    size a < U32 /\
+    32 + (size a + lenN (pool_bytes a)) + 4 * lenL (rp_of a groups) + 8 * lenL ltab + lenN (p_raw tpool2) < U32 /\
+    image_size kf a = 32 + (size a + lenN (pool_bytes a)) + 4 * lenL (rp_of a groups) + 8 * lenL ltab + lenN (p_raw tpool2) /\
+    wfb f /\ conforms (a_endian a) f (published kf a).
+Proof.
+  intros WF Ef.
+  destruct (ser_facts kf a WF) as (d2 & tpool2 & groups & ltab & Es & L2 & W2 & Hptr & Hstr & Hnth & Hok2 & Wp & Hlen & Erl & HF & Hperm).
+  exists d2, tpool2, groups, ltab.
+  assert (Efs : file_size_of kf a (d2, tpool2, groups) = 32 + (size a + lenN (pool_bytes a)) + 4 * lenL (rp_of a groups) + 8 * lenL ltab + lenN (p_raw tpool2))
+    by (eapply file_size_fsz; eassumption).
+  rewrite serialize_unfold, Es in Ef. cbn [bind] in Ef.
+  assert (FSZ : small32 (32 + (size a + lenN (pool_bytes a)) + 4 * lenL (rp_of a groups) + 8 * lenL ltab + lenN (p_raw tpool2))).
+  { rewrite assemble_guard in Ef. rewrite Efs in Ef.
+    destruct (N.leb_spec (32 + (size a + lenN (pool_bytes a)) + 4 * lenL (rp_of a groups) + 8 * lenL ltab + lenN (p_raw tpool2)) 4294967295) as [H|H];
+      [unfold small32, U32; lia | discriminate]. }
+  assert (SZ : small32 (size a)) by (unfold small32 in *; lia).
+  assert (E : f = image_of a d2 tpool2 groups ltab).
+  { rewrite (assemble_ok kf a d2 tpool2 groups ltab) in Ef by assumption. inversion Ef. reflexivity. }
+  split; [exact Es|]. split; [exact E|]. split; [exact SZ|]. split; [exact FSZ|].
+  split; [unfold image_size; rewrite Es; exact Efs|]. subst f. split.
+  - eapply image_wfb; eassumption.
+  - rewrite (published_eq a d2 tpool2 groups Es). eapply image_conforms; eassumption.
+Qed.
+
+(* the image of a well-formed archive is never longer than the simple bound of fits32 *)
+Theorem image_size_bound a : wf_archive a -> size a < U32 -> image_size kf a <= ser_bound a.
+Proof.
+  intros WF SZ0. assert (SZ : small32 (size a)) by exact SZ0.
+  destruct (ser_facts kf a WF) as (d2 & tpool2 & groups & ltab & Es & L2 & W2 & Hptr & Hstr & Hnth & Hok2 & Wp & Hlen & Erl & HF & Hperm).
+  unfold image_size. rewrite Es. erewrite file_size_fsz by eassumption. eapply fsz_bound; eassumption.
+Qed.
+(* accepted iff the image fits 32-bit sizes, in both arithmetic profiles *)
+Theorem serialize_ok_iff m a : wf_archive a -> ((exists f, serialize_k kf m a = Ok f) <-> image_size kf a < U32).
+Proof.
+  intros WF. split.
+  - intros [f Ef]. destruct (serialize_ok_facts m a f WF Ef) as (d2 & tpool2 & groups & ltab & _ & _ & _ & H & E & _). rewrite E. exact H.
+  - intros H.
+    destruct (ser_facts kf a WF) as (d2 & tpool2 & groups & ltab & Es & L2 & W2 & Hptr & Hstr & Hnth & Hok2 & Wp & Hlen & Erl & HF & Hperm).
+    assert (Efs : file_size_of kf a (d2, tpool2, groups) = 32 + (size a + lenN (pool_bytes a)) + 4 * lenL (rp_of a groups) + 8 * lenL ltab + lenN (p_raw tpool2))
+    by (eapply file_size_fsz; eassumption).
+    unfold image_size in H. rewrite Es, Efs in H.
+    exists (image_of a d2 tpool2 groups ltab). rewrite serialize_unfold, Es. cbn [bind]. apply assemble_ok; assumption.
+Qed.
+(* ... and rejected (Err, no panic, nothing truncated) when it does not *)
+Theorem serialize_rejects_large m a : wf_archive a -> U32 <= image_size kf a -> serialize_k kf m a = Err EOther.
+Proof.
+  intros WF H.
+  destruct (ser_facts kf a WF) as (d2 & tpool2 & groups & ltab & Es & _).
+  unfold image_size in H. rewrite Es in H. rewrite serialize_unfold, Es. cbn [bind]. apply assemble_rejects. exact H.
+Qed.
+Theorem serialize_ok_length m a f : wf_archive a -> serialize_k kf m a = Ok f -> lenN f = image_size kf a /\ lenN f < U32.
+Proof.
+  intros WF Ef.
+  destruct (ser_facts kf a WF) as (d2' & tpool2' & groups' & ltab' & Es' & L2 & W2 & Hptr & Hstr & Hnth & Hok2 & Wp & Hlen & Erl & HF & Hperm).
+  destruct (serialize_ok_facts m a f WF Ef) as (d2 & tpool2 & groups & ltab0 & Es & E & _ & H & Ei & _).
+  rewrite Es in Es'. inversion Es'; subst d2' tpool2' groups'.
+  assert (Efs : file_size_of kf a (d2, tpool2, groups) = 32 + (size a + lenN (pool_bytes a)) + 4 * lenL (rp_of a groups) + 8 * lenL ltab' + lenN (p_raw tpool2))
+    by (eapply file_size_fsz; eassumption).
+  assert (Ef' : f = image_of a d2 tpool2 groups ltab').
+  { assert (FSZ : small32 (32 + (size a + lenN (pool_bytes a)) + 4 * lenL (rp_of a groups) + 8 * lenL ltab' + lenN (p_raw tpool2))).
+    { rewrite <- Efs. unfold image_size in Ei. rewrite Es in Ei. rewrite Ei. exact H. }
+    rewrite serialize_unfold, Es in Ef. cbn [bind] in Ef. rewrite (assemble_ok kf a d2 tpool2 groups ltab') in Ef by assumption.
+    inversion Ef. reflexivity. }
+  assert (L : lenN f = image_size kf a).
+  { rewrite Ef'. unfold image_size. rewrite Es, Efs. eapply lenN_image; eassumption. }
+  split; [exact L|]. rewrite L, Ei. exact H.
+Qed.
+
+(* C01_serialize_conforms: success IS the size condition *)
+Theorem serialize_ok_conforms : forall m a f, wf_archive a -> serialize_k kf m a = Ok f ->
+  wfb f /\ conforms (a_endian a) f (published kf a).
+Proof. intros m a f WF Ef. destruct (serialize_ok_facts m a f WF Ef) as (_ & _ & _ & _ & _ & _ & _ & _ & _ & H). exact H. Qed.
+(* with the a-priori bound fits32 serialize does succeed *)
 Theorem serialize_conforms : forall m a, wf_archive a -> fits32 a ->
   exists f, serialize_k kf m a = Ok f /\ wfb f /\ conforms (a_endian a) f (published kf a).
 Proof.
   intros m a WF FIT.
-  destruct (ser_facts kf a WF) as (d2 & tpool2 & groups & ltab & Es & L2 & W2 & Hptr & Hstr & Hnth & Hok2 & Wp & Hlen & Erl & HF & Hperm).
-  exists (image_of a d2 tpool2 groups ltab). split; [|split].
-  - rewrite serialize_unfold, Es. cbn [bind]. apply assemble_ok; assumption.
-  - eapply image_wfb; eassumption.
-  - rewrite (published_eq a d2 tpool2 groups Es). eapply image_conforms; eassumption.
+  assert (H : image_size kf a < U32) by (pose proof (image_size_bound a WF (fits32_size a FIT)); unfold fits32 in FIT; lia).
+  destruct (proj2 (serialize_ok_iff m a WF) H) as [f Ef]. exists f. split; [exact Ef|]. exact (serialize_ok_conforms m a f WF Ef).
 Qed.
 
 (* ------------------------------------------------------------------ what published kf a is *)
@@ -657,7 +799,7 @@ Proof.
 Qed.
 
 (* ------------------------------------------------------------------ C01 "the serialized image is itself well-formed" *)
-Theorem serialize_image_wellformed : forall m a f, wf_archive a -> fits32 a -> serialize_k kf m a = Ok f ->
+Theorem serialize_image_wellformed : forall m a f, wf_archive a -> serialize_k kf m a = Ok f ->
   exists ptab ltab txt,
     let e := a_endian a in
     let d := c_data (published kf a) in
@@ -672,10 +814,17 @@ Theorem serialize_image_wellformed : forall m a f, wf_archive a -> fits32 a -> s
     (* with an aligned data length the pool is padded and both tables start on a multiple of 4 *)
     (size a mod 4 = 0 -> (32 + lenN d) mod 4 = 0 /\ (32 + lenN d + 4 * lenL ptab) mod 4 = 0).
 Proof.
-  intros m a f WF FIT Ef.
+  intros m a f WF Ef.
   destruct (ser_facts kf a WF) as (d2 & tpool2 & groups & ltab & Es & L2 & W2 & Hptr & Hstr & Hnth & Hok2 & Wp & Hlen & Erl & HF & Hperm).
+  assert (Efs : file_size_of kf a (d2, tpool2, groups) = 32 + (size a + lenN (pool_bytes a)) + 4 * lenL (rp_of a groups) + 8 * lenL ltab + lenN (p_raw tpool2))
+    by (eapply file_size_fsz; eassumption).
+  assert (FSZ : small32 (32 + (size a + lenN (pool_bytes a)) + 4 * lenL (rp_of a groups) + 8 * lenL ltab + lenN (p_raw tpool2))).
+  { pose proof Ef as Ef2. rewrite serialize_unfold, Es in Ef2. cbn [bind] in Ef2. rewrite assemble_guard, Efs in Ef2.
+    destruct (N.leb_spec (32 + (size a + lenN (pool_bytes a)) + 4 * lenL (rp_of a groups) + 8 * lenL ltab + lenN (p_raw tpool2)) 4294967295) as [H|H];
+      [unfold small32, U32; lia | discriminate]. }
+  assert (SZ : small32 (size a)) by (unfold small32 in *; lia).
   assert (E : f = image_of a d2 tpool2 groups ltab).
-  { rewrite serialize_unfold, Es in Ef. cbn [bind] in Ef. rewrite (assemble_ok kf a WF FIT d2 tpool2 groups ltab) in Ef by assumption.
+  { rewrite serialize_unfold, Es in Ef. cbn [bind] in Ef. rewrite (assemble_ok kf a d2 tpool2 groups ltab) in Ef by assumption.
     inversion Ef. reflexivity. }
   assert (LI : lenN (image_of a d2 tpool2 groups ltab)
                = 32 + (size a + lenN (pool_bytes a)) + 4 * lenL (rp_of a groups) + 8 * lenL ltab + lenN (p_raw tpool2))
@@ -684,9 +833,9 @@ Proof.
   assert (Ld : lenN (d2 ++ pool_bytes a) = size a + lenN (pool_bytes a)) by (rewrite lenN_app, L2; reflexivity).
   split; [|split; [|split; [|split; [|split]]]].
   - rewrite E at 2. rewrite LI, Ld. rewrite E. reflexivity.
-  - rewrite E, LI. eapply fsz_small; eassumption.
+  - rewrite E, LI. exact FSZ.
   - exact Ld.
-  - apply Forall_forall. intros c Hc. rewrite Ld. apply (Permutation_in _ (rp_cells a WF FIT groups Hperm)) in Hc.
+  - apply Forall_forall. intros c Hc. rewrite Ld. apply (Permutation_in _ (rp_cells a WF SZ groups Hperm)) in Hc.
     pose proof (wf_cells_in a WF c Hc). lia.
   - assert (HF' : Forall2 (fun (x : N * N) (y : N * bytes) => fst x <= lenN (d2 ++ pool_bytes a) /\ snd x < lenN (p_raw tpool2))
                     ltab (label_names (lab_sorted kf a))).
